@@ -12,7 +12,7 @@ KINDS = ['file', 'empty', 'tree', 'link_dangling', 'link_dir', 'dir_empty']
 def config(tier):
     return {
         'level': 'fault_enumeration',
-        'cases': 70 if tier == 'quick' else 2500,
+        'cases': 280 if tier == 'quick' else 2500,
         'budget_s': 55 if tier == 'quick' else 570,
         'floors': {'cases': 30, 'crash_states': 1000,
                    'crash_states_after_first_mutation': 800,
